@@ -585,6 +585,22 @@ impl<'a> Explorer<'a> {
     }
 }
 
+/// Follow a recorded path (engine successors; a trailing * = capture-only step) from a root FEN
+pub fn walk(ex: &Explorer, root_fen: &str, path: &[String]) -> Result<Node, String> {
+    let pos = Pos::from_fen(root_fen).ok_or("bad root fen")?;
+    let mut node = Node::root(pos);
+    node.root = Arc::new(root_fen.to_string());
+    for step in path {
+        let cap = step.ends_with('*');
+        let mv = Mv::from_uci(step.trim_end_matches('*')).ok_or("bad move in path")?;
+        let board = node.board(&ex.h);
+        let succs = generate_moves(&board, if cap { MoveGenerationMode::CapturesOnly } else { MoveGenerationMode::AllMoves }, &ex.h);
+        let succ = succs.iter().find(|s| move_of_successor(&node.pos, s) == Some(mv)).ok_or(format!("the engine no longer generates {} from {}", mv.uci(), node.pos.fen()))?;
+        node = Node { pos: node.pos.make(&mv), promo: succ.pawn_promotion, oh: succ.order_heuristic, last: succ.last_move, cap, root: node.root.clone(), path: Some(Arc::new(PathNode { parent: node.path.clone(), mv, cap })), depth: node.depth + 1 };
+    }
+    Ok(node)
+}
+
 // ------------------------------------------------------------------------------------------------ roots
 
 /// S1 roots: (fen, quick depth, thorough depth)
